@@ -73,7 +73,7 @@ fn check_layer_chunk(data: &[u8]) -> bool {
     let got = parse_chunk(data);
     let decoded_ok = got.is_ok();
     let want = fmt::layer(data);
-    match (got, want) {
+    match (&got, want) {
         (Ok(l), Some(w)) => {
             assert!(l.flags.bits() == w.flags as u32, "flags = le_u16(0) restricted to the 7 defined bits");
             assert!(l.child_level == w.child_level, "child level = le_u16(4)");
@@ -91,27 +91,31 @@ fn check_layer_chunk(data: &[u8]) -> bool {
         (Ok(_), None) => assert!(false, "decoder accepted a chunk the format rejects (short, bad enum or bad UTF-8)"),
         (Err(_), Some(_)) => assert!(false, "decoder rejected a well-formed layer chunk"),
     }
+    core::mem::forget(got); // dropping io::Error (bit-packed pointer repr) is very expensive for CBMC
     decoded_ok
 }
 
 macro_rules! layer_shape {
-    ($hname:ident, $n:expr, $u:expr, $can_ok:expr) => {
+    ($hname:ident, $n:expr, $u:expr, [$($len:expr),*]) => {
         crate::verif_harness! {
-            /// layer::parse_chunk on every payload of exactly $n bytes (symbolic contents): Ok iff the
-            /// layout fits, enums are in range and the name is UTF-8, and then every stored attribute
-            /// equals the layout read. BOUNDED in the payload size only.
+            /// layer::parse_chunk on every payload of exactly $n bytes whose NAME-LENGTH field is one of the
+            /// listed values (every other byte symbolic): Ok iff the layout fits, enums are in range and
+            /// the name is UTF-8, and then every stored attribute equals the layout read. No panic, no overflow.
             #[kani::stub(std::fmt::format, crate::verif_spec::stubs::format_stub)]
             #[kani::unwind($u)]
             fn $hname(s) {
-                let d: [u8; $n] = s.bytes();
-                let ok = check_layer_chunk(&d);
-                crate::vcover!(ok || !$can_ok, "a well-formed payload of this size decodes");
-                crate::vcover!(!ok, "a malformed payload of this size is rejected");
+                let mut d: [u8; $n] = s.bytes();
+                $(
+                    crate::verif_spec::pin16(&mut d, 16, $len);
+                    let ok = check_layer_chunk(&d);
+                    crate::vcover!(ok || ($len as usize) + 18 > $n, "a well-formed payload with this name length decodes");
+                    crate::vcover!(!ok, "a malformed payload is rejected");
+                )*
             }
         }
     };
 }
-layer_shape!(k_layer_chunk_18, 18, 3, true); // empty name, image/group
-layer_shape!(k_layer_chunk_21, 21, 6, true); // 3-byte name (incl. multi-byte UTF-8), image/group
-layer_shape!(k_layer_chunk_24, 24, 9, true); // tilemap layer with 2-byte name, or 6-byte name
-layer_shape!(k_layer_chunk_17, 17, 3, false); // always too short
+layer_shape!(k_layer_chunk_17, 17, 3, [0]); // always too short
+layer_shape!(k_layer_chunk_18, 18, 3, [0, 1, 0xffff]); // empty name; image / group
+layer_shape!(k_layer_chunk_21, 21, 6, [3, 2, 4]); // 3-byte name incl. multi-byte UTF-8; slack byte; too long
+layer_shape!(k_layer_chunk_24, 24, 6, [2, 0]); // tilemap layer with 2-byte name + tileset index; trailing bytes
